@@ -9,17 +9,17 @@ def plans(quick):
     A, HI, ONE = 97, 12354, 49
     if quick:
         return {
-            "T1-one-model": dict(Ws={1, 2}, Layouts1={2, 3}, Layouts2={9}, BaseKinds={0, 1}, K=2, CPool={1, 2, 3}, TPool={1, 2},
+            "T1-one-model": dict(Ws={1, 2}, Layouts1={2, 3, 5}, Layouts2={9}, BaseKinds={0, 1}, K=2, CPool={1, 2, 3}, TPool={1, 2},
                                  TextAlpha={A, HI}, MaxText=4, Tie=False, Swap=False),
-            "T2-two-models": dict(Ws={2}, Layouts1={0, 1, 4}, Layouts2={2, 3}, BaseKinds={3}, K=2, CPool={1, 2, 6}, TPool={3, 4},
+            "T2-two-models": dict(Ws={2}, Layouts1={0, 1, 4}, Layouts2={2, 3, 6}, BaseKinds={3}, K=2, CPool={1, 2, 6}, TPool={3, 4},
                                   TextAlpha={A, HI, ONE}, MaxText=3, Tie=False, Swap=True),
             "T3-ties": dict(Ws={1}, Layouts1={2, 3}, Layouts2={2}, BaseKinds={0, 2}, K=1, CPool={1, 2}, TPool={1},
                             TextAlpha={A, HI}, MaxText=4, Tie=True, Swap=False),
         }
     return {
-        "T1-one-model": dict(Ws={1, 2}, Layouts1={2, 3, 4}, Layouts2={9}, BaseKinds={0, 1, 2}, K=3, CPool={1, 2, 3, 4}, TPool={1, 2},
+        "T1-one-model": dict(Ws={1, 2}, Layouts1={2, 3, 4, 5, 6}, Layouts2={9}, BaseKinds={0, 1, 2}, K=3, CPool={1, 2, 3, 4}, TPool={1, 2},
                              TextAlpha={A, HI}, MaxText=5, Tie=False, Swap=False),
-        "T2-two-models": dict(Ws={2}, Layouts1={0, 1, 2, 4}, Layouts2={0, 2, 3}, BaseKinds={0, 3}, K=2, CPool={1, 2, 5, 6}, TPool={1, 3, 4},
+        "T2-two-models": dict(Ws={2}, Layouts1={0, 1, 2, 4}, Layouts2={0, 2, 3, 5, 6}, BaseKinds={0, 3}, K=2, CPool={1, 2, 5, 6}, TPool={1, 3, 4},
                               TextAlpha={A, HI, ONE}, MaxText=4, Tie=False, Swap=True),
         "T3-ties": dict(Ws={1, 2}, Layouts1={2, 3}, Layouts2={2, 9}, BaseKinds={0, 2}, K=2, CPool={1, 2}, TPool={1},
                         TextAlpha={A, HI}, MaxText=4, Tie=True, Swap=False),
@@ -56,6 +56,13 @@ def to_history(i, fam, c, store=True):
         if not (store and c["nt"] > 0):
             e["tokens"] = [{k: v for k, v in t.items() if k != "cands"} for t in e["tokens"]]
         exp += [None, None, [e]]
+        if j % 3 == 0 and len(r["text"]) >= 2 and "expect2" in r:
+            # labels edited by hand (incl. unknown), then fill_tags again on the same prediction
+            e2 = dict(r["expect2"])
+            if not (store and c["nt"] > 0):
+                e2["tokens"] = [{k: v for k, v in t.items() if k != "cands"} for t in e2["tokens"]]
+            ops += [{"op": "set_bnd", "v": r["bnd2"]}, {"op": "fill_tags", "cands": store and c["nt"] > 0}]
+            exp += [None, [e2]]
     m = c["model"]
     key = f"{fam}:w{m['cw']}:base{len(m['cng'])}{len(m['tng'])}{len(m['dict'])}:tags=" + ";".join(
         "".join(map(chr, t["token"])) + ":" + ",".join(str(len(x)) for x in t["cats"]) + ":c" +
